@@ -54,6 +54,12 @@ def _make_instance(spec: dict) -> Any:
         return lib.KwBlock(D, seed)
     if cls == "LateBlock":
         return lib.LateBlock(D, seed)
+    if cls == "BaseAffine":
+        return lib.BaseAffine(D, seed)
+    if cls == "DerivedAffine":
+        return lib.DerivedAffine(D, seed)
+    if cls == "RecScale":
+        return lib.RecScale(D, seed, depth=int(spec.get("depth", 1)), via_wrap=bool(spec.get("via_wrap", True)))
     raise ValueError(cls)
 
 
@@ -122,7 +128,7 @@ def build_callable(program: dict, pool: Pool, keep: list) -> Any:
     return fn
 
 
-_SPEC_DEFAULTS = {"Block": {"act": "gelu"}, "UBlock": {"flip": False}, "EqxBlock": {"slope": 0.1}}
+_SPEC_DEFAULTS = {"Block": {"act": "gelu"}, "UBlock": {"flip": False}, "EqxBlock": {"slope": 0.1}, "RecScale": {"depth": 1, "via_wrap": True}}
 _KW_DEFAULTS = {"fn_scale": {"factor": 2.0}, "KwBlock": {"scale": 1.0}}
 
 
@@ -400,6 +406,8 @@ def run(plan: dict) -> dict:
             stats["sharing_not_mapped"] += 1
         if any("temp" in s for s in sites):
             stats["probe_temp_instance_programs_exported"] += 1
+        if any(s.get("inst") in pool.desc and pool.desc[s["inst"]].get("cls") == "RecScale" and int(pool.desc[s["inst"]].get("depth", 1)) > 0 for s in sites):
+            stats["probe_reentrant_nesting_programs_exported"] += 1
         log.add(i=idx, op="convert", n_fn=n_fn, n_calls=len(calls), verdict=verdict, digest=oracle.proto_digest(model))
         if viol and plan.get("stop_on_violation", True):
             break
@@ -416,7 +424,7 @@ def run(plan: dict) -> dict:
 # coordinator: history generator
 # ---------------------------------------------------------------------------
 
-CLASSES = ["Block", "UBlock", "EqxBlock", "PlainScale", "KwBlock", "Outer", "Inner"]
+CLASSES = ["Block", "UBlock", "EqxBlock", "PlainScale", "KwBlock", "Outer", "Inner", "RecScale", "BaseAffine", "DerivedAffine"]
 
 
 def gen_history(seed: int, run: int, n_ops: int) -> list[dict]:
@@ -443,11 +451,16 @@ def gen_history(seed: int, run: int, n_ops: int) -> list[dict]:
                     spec["flip"] = not spec.get("flip", False)
                 elif spec["cls"] == "EqxBlock":
                     spec["slope"] = r.choice([0.1, 0.2, 0.5])
+                elif spec["cls"] == "RecScale":
+                    spec["depth"] = r.choice([0, 1, 2])
                 else:
                     spec["seed"] = spec["seed"] + 1
         else:
             c = cls or r.choice(CLASSES + (["LateBlock"] if late else []))
             spec = {"cls": c, "seed": r.randrange(1, 7)}
+            if c == "RecScale":
+                spec["depth"] = r.choice([0, 1, 1, 2])
+                spec["via_wrap"] = r.random() < 0.7
         live[iid] = spec
         ops.append({"op": "instantiate", "id": iid, "spec": spec})
         return iid
